@@ -66,6 +66,15 @@ chk("C09","model_checking",
     "Bounded as listed in the evidence (families 1-3). One trun per traf. A known finding (single trex) is listed in known_findings.json by predicate.",
     "exhaustive enumeration of input shapes (bounded) against an independent reference model, on the real reader, two delivery modes","§3 C09")
 
+chk("C12","model_checking",
+    "Reference box trees of representative progressive movies (AVC+AAC with every optional table, edit lists and iTunes metadata; HEVC+TTXT with a QuickTime-form meta and constant sample size; VP9 with mdat first) and fragmented movies (one and two tracks, mixed base/offset forms) are transformed at every applicable position (insert free/unknown boxes with 32- and 64-bit headers at every child index of the top level and of every iterating container; permute order-free siblings; swap mdat/moov; 64-bit header on each single box and on all; 1 and 8 spare bytes after every fixed-layout/table box), re-serialised with dependent offsets recomputed, and compared with the untransformed movie: per-sample results, offsets shifted by exactly the layout change, track accessors, metadata. Quick = every single transformation; thorough = every pair.",
+    "Logical movies are a fixed representative set (not the whole C03/C09 generator space). hev1/vp09/stsd/edts do not iterate over children and are out of scope of insertion.",
+    "exhaustive enumeration of layout transformations (k<=2) of reference-encoded inputs, differential against the untransformed parse, on the real reader","§3 C12")
+chk("C18","model_checking",
+    "All 16 subsets of the four items x per-item payload alphabets (text lengths 0..70000 with multi-byte UTF-8, year as decimal text or 4-byte binary incl. 0 and 2^32-1, poster lengths 0..70000) x item orders x unrelated items (text, unknown data type, no data box) at every position x handler mdir/mdta/zero x FullBox/QuickTime meta x placement (udta/meta, no udta, udta without meta, meta directly in moov) are reference-encoded and the four accessors compared with the encoded values / absence.",
+    "Bounded by the listed alphabets; only the encodings the statement names (text type 1, binary year, JPEG type 13).",
+    "exhaustive enumeration of input shapes against an independent reference encoder, on the real reader","§3 C18")
+
 NA={}
 m={"version":1,
    "setup_cmd":"cd harness && CARGO_NET_OFFLINE=true cargo build --offline --release && CARGO_NET_OFFLINE=true cargo build --offline --profile wrapping",
